@@ -68,7 +68,7 @@ META = {
         'repr() of Python values (external call of the model shortrepr: a text or the class of an exception)',
     ],
     'assumptions': ['generalConfig.lazy_number_validation is False (default)',
-                    'change requests: a parameter without write_ method, check_ function or limit parameters; do requests: an argument type that is not a struct at the root; '
+                    'change requests: a parameter without write_ method, check_ function or limit parameters; do requests: for a struct at the root the member names are Python identifiers (the function is generated with the signature the decorator demands); '
                     'command results: commands without argument or with an IntRange(0, 5) argument, the function returns the candidate and raises nothing',
                     'previous is None or a value __call__ returned (it may lie outside the limits)',
                     'dict keys of offered values are strings (struct member names)'],
@@ -226,7 +226,7 @@ def make_cases(rng, tree, per_tree, big, unmodelled=None):
     # candidates of unusual size (many members / elements / characters / digits, deep nesting) at every kind of position:
     # the refusal path (error texts, re-raising wrappers) sees every candidate
     for mode, base in (valids[:2] if len(valids) > 1 else valids):
-        for path, recipe in gen.size_candidates(rng, base, mode == 'wire', max(3, per_tree // 10), big):
+        for path, recipe in gen.size_candidates(rng, base, mode == 'wire', 4, big):
             if gen.recipe_travels(recipe):
                 cases.append((mode, 'size', gen.subst(base, path, gen.build_big(recipe)), gen.gen_previous(rng, tree)))
             elif unmodelled is not None and dtcodec.encodable(base):
@@ -402,9 +402,19 @@ class ChangeNode:
                 self.called += 1
                 return self.answer
         if isinstance(dt, StructOf):
-            # a struct argument is bound to the signature of the function (names, and `optional` REWRITTEN from the
-            # defaults): no command for a struct at the root; structs below the root are covered
-            M = M1
+            # a struct argument is bound to the signature of the function: the parameter names must be the member names and
+            # `optional` is REWRITTEN to the parameters with a default.  The function is built with exactly that signature
+            # (keyword-only parameters, a default for the optional members), so the argument type stays the tree's.
+            names = list(dt.members)
+            if all(k.isidentifier() and k not in ('self', '_NO') for k in names):
+                params = ', '.join(f'{k}=_NO' if k in dt.optional else k for k in names)
+                ns = {'_NO': object()}
+                exec(f'def c(self, *, {params}):\n'
+                     f'    """command under test: records what it is called with"""\n'
+                     f'    self.got = ((), {{k: v for k, v in locals().items() if k != "self" and v is not _NO}})\n', ns)
+                M = type('M', (M1,), {'c': Command(argument=dt.copy())(ns['c'])})
+            else:
+                M = M1
         else:
             class M(M1):
                 @Command(argument=dt.copy())
@@ -712,6 +722,8 @@ def helper_stream(ctx, res, cases, sizecases, nsample):
         res.notes.append('frappy.datatypes.shortrepr does not exist: helper stream skipped')
         return
     pool = [dict(c, mode='helper') for c, stream in cases if stream == 'size']
+    if len(pool) > 4 * nsample:
+        pool = ctx.rng.sample(pool, 4 * nsample)
     others = [dict(c, mode='helper') for c, stream in cases if stream not in ('size', 'corpus')]
     pool += ctx.rng.sample(others, min(len(others), nsample))
     pool += [dict(sc, mode='helper') for sc in sizecases]
@@ -838,6 +850,17 @@ def describe(case, impl):
 
 # ---------------------------------------------------------------------------------------------
 def run(ctx):
+    # a run keeps all its cases (millions of small lists and dicts in the thorough tier) until the end: the cyclic
+    # garbage collector would traverse them again and again for nothing (no cycles are created here)
+    import gc
+    gc.disable()
+    try:
+        return _run(ctx)
+    finally:
+        gc.enable()
+
+
+def _run(ctx):
     res = Result()
     res.rule = ('(tree, candidate, previous) triples on the real datatype classes (built by the constructors; a share rebuilt by '
                 'get_datatype): import_value + validate(previous) for JSON candidates, validate(previous) for Python candidates, '
